@@ -11,7 +11,7 @@ Decides (structural):
   R-CLEAR-RESETS    for each Table impl: fields written by the mutation path are reset by clear()
 """
 from ..util import guards, edge_relation, fmt_atoms, variant_is, trace_back
-from . import c05
+from . import c05, extent_common
 from .rebuild_common import RebuildModel, desc_local
 
 EXPLANATION = (
@@ -330,4 +330,5 @@ def run(chk, prog, tier):
     check_raw_rows(chk, prog)
     check_index_protocol(chk, prog)
     c05.check_insert_after_probe(chk, prog)
+    extent_common.check_scan_extent(chk, prog)
     check_clear_resets(chk, prog)
